@@ -67,6 +67,7 @@ type callScript struct {
 type histScript struct {
 	seed  uint64
 	scion bool
+	tsopt int // SCION: replies carry a receive-timestamp option (1 software form, 2 hardware form)
 	im    bool
 	calls []callScript
 }
@@ -194,6 +195,12 @@ func runWorker(a lib.Args, wi int) {
 		}
 		done++
 	}
+	if a.Replay == "" && wi < 4 {
+		r := lib.NewRng(a.Seed*31 + uint64(wi))
+		for k := 0; k < 2; k++ {
+			runFallback(w, k == 1, genThetaBase(r))
+		}
+	}
 	if a.Replay == "" {
 		w.Case("c03.kstamps", "", lib.V(lib.I(nAttempts), lib.I(nFbTx), lib.I(nFbRx)), "")
 	}
@@ -245,6 +252,9 @@ func genDelay(r *lib.Rng) time.Duration {
 func genHistory(seed uint64) *histScript {
 	r := lib.NewRng(seed)
 	hs := &histScript{seed: seed, im: r.Intn(8) != 0, scion: r.Intn(100) < 35}
+	if hs.scion {
+		hs.tsopt = r.Intn(3)
+	}
 	base := genThetaBase(r)
 	mode := r.Intn(4) // 0 constant, 1 jitter, 2 steps between exchanges, 3 unrelated per exchange
 	cur := base
@@ -403,8 +413,9 @@ func prevStr(p prevSnap) string {
 
 // the client under test: the real IPClient or the real SCIONClient
 type cli struct {
-	ip *client.IPClient
-	sc *client.SCIONClient
+	ip   *client.IPClient
+	sc   *client.SCIONClient
+	zone string // interface name: requests hardware timestamping
 }
 
 func (c *cli) obj() any {
@@ -427,9 +438,9 @@ func scionRemote(srv int) udp.UDPAddr { return udp.UDPAddr{IA: theIA, Host: theP
 
 func (c *cli) measure(ctx context.Context, srv int) (time.Time, time.Duration, error) {
 	if c.sc == nil {
-		return client.MeasureClockOffsetIP(ctx, log0, c.ip, localAddr, thePeer.addr(srv))
+		return client.MeasureClockOffsetIP(ctx, log0, c.ip, &net.UDPAddr{IP: localAddr.IP, Zone: c.zone}, thePeer.addr(srv))
 	}
-	la := udp.UDPAddr{IA: theIA, Host: &net.UDPAddr{IP: append(net.IP(nil), localAddr.IP...)}}
+	la := udp.UDPAddr{IA: theIA, Host: &net.UDPAddr{IP: append(net.IP(nil), localAddr.IP...), Zone: c.zone}}
 	p := spath.Path{Src: theIA, Dst: theIA, DataplanePath: spath.Empty{}, NextHop: thePeer.addr(srv)}
 	ts, off, _ := client.MeasureClockOffsetSCION(ctx, log0, []*client.SCIONClient{c.sc}, la, scionRemote(srv), []snet.Path{p})
 	if ts.IsZero() {
@@ -666,6 +677,9 @@ func runHistory(w *lib.Writer, hs *histScript) bool {
 	if racy {
 		return false
 	}
+	if hs.tsopt != 0 {
+		tags[fmt.Sprintf("tsopt%d", hs.tsopt)] = true
+	}
 	if hs.scion {
 		tags["scion"] = true
 	} else {
@@ -695,4 +709,61 @@ func sortStrings(s []string) []string {
 		}
 	}
 	return s
+}
+
+// c03.fallback: one basic exchange of a client that cannot read kernel
+// timestamps (hardware timestamping requested on the loopback interface, which
+// has none): udp.ReadTXTimestamp gives up after its 1 ms poll and the client
+// takes cTxTime1 = timebase.Now() - after the poll, i.e. about 1 ms after the
+// request left.  Same peer, same oracle as c03.hist.
+func runFallback(w *lib.Writer, scn bool, theta time.Duration) {
+	lim := time.Duration(maxThetaSecs) * time.Second
+	if theta > lim || theta < -lim {
+		theta = 2 * time.Second
+	}
+	hs := &histScript{scion: scn, calls: []callScript{{acts: []action{{kind: aNormal, theta: [2]time.Duration{theta, theta}}}}}}
+	c := &cli{zone: "lo"}
+	if scn {
+		c.sc = &client.SCIONClient{Log: log1, Filter: recFilter{}}
+	} else {
+		c.ip = &client.IPClient{Log: log1, Filter: recFilter{}}
+	}
+	rec.snap = func() prevSnap { return snapPrevOf(c.obj()) }
+	thePeer.begin(hs)
+	thePeer.setCall(0)
+	rec.take()
+	sctx := &scriptCtx{wait: func() time.Duration { return longWait }}
+	_, off, err := c.measure(sctx, 0)
+	evs := rec.take()
+	atts, complete := parseEvents(evs)
+	if err != nil || !complete || len(atts) != 1 || atts[0].filt == nil || !atts[0].hasRecv || !thePeer.waitDone(1, 5*time.Second) {
+		fmt.Printf("NOTE c03.fallback: exchange not completed (err=%v)\n", err)
+		return
+	}
+	at := atts[0]
+	thePeer.mu.Lock()
+	defer thePeer.mu.Unlock()
+	h := thePeer.h
+	if len(h.handlings) != 1 || len(h.attempts[0].dgrams) != 1 {
+		return
+	}
+	hd, d := h.handlings[0], h.attempts[0].dgrams[0]
+	tags := "fallback-forced"
+	if at.fbTx {
+		tags += ",fbtx"
+	}
+	if at.fbRx {
+		tags += ",fbrx"
+	}
+	f := at.filt
+	late := ns(f.t0) - ns(at.now0.real)
+	errAbs := int64(off) - int64(theta)
+	if errAbs < 0 {
+		errAbs = -errAbs
+	}
+	args := lib.V(lib.Bool(scn), lib.I(ns(at.now0.val)), lib.I(ns(f.t0)),
+		lib.L("1", lib.U(uint64(d.pkt.LVM)), lib.U(uint64(d.pkt.Stratum)), t64s(d.pkt.OriginTime), t64s(d.pkt.ReceiveTime), t64s(d.pkt.TransmitTime), lib.I(ns(at.recvAt))),
+		lib.I(ns(at.now0.real)), lib.I(ns(hd.srx)), lib.I(ns(hd.stx)), lib.I(int64(hd.theta)), lib.I(ns(at.end)))
+	outs := lib.V(lib.I(ns(f.t0)), lib.I(ns(f.t1)), lib.I(ns(f.t2)), lib.I(ns(f.t3)), lib.I(int64(off)), lib.I(late), lib.I(errAbs))
+	w.Case("c03.fallback", tags, args, outs)
 }
